@@ -98,10 +98,19 @@ def _point_domain(group, env, thorough):
         for Q in got[: 6 if not thorough else 20]:
             dom.append(("y.c1=0", Q))
             dom.append(("y.c1=0", E.neg(Q)))
-        ys = [(0, t) for t in range(1, 14)] + [(0, zcash.HALF - j) for j in range(4)] + \
-             [(0, zcash.HALF + 1 + j) for j in range(4)]
-        for Q in zcash.g2_points_with_y(ys)[: 4 if not thorough else 16]:
+        ys = [(0, t) for t in range(1, 14)]
+        for Q in zcash.g2_points_with_y(ys)[: 2 if not thorough else 8]:
             dom.append(("y.c0=0", Q))
+        # y.c1 exactly at the sign boundary (p-1)/2 and (p+1)/2, with y.c0 = 0 and y.c0 != 0
+        ys = [(a_, zcash.HALF + d_) for d_ in (0, 1) for a_ in range(0, 24)]
+        got_b = zcash.g2_points_with_y(ys)
+        for d_ in (0, 1):
+            sel_b = [Q for Q in got_b if Q[1][1] == zcash.HALF + d_][: 2 if not thorough else 6]
+            for Q in sel_b:
+                dom.append(("y.c1=(p%s1)/2" % ("-" if d_ == 0 else "+"), Q))
+        ys = [(zcash.HALF + d_, 0) for d_ in (0, 1, -1, 2)]
+        for Q in zcash.g2_points_with_y(ys):
+            dom.append(("y.c1=0,y.c0-at-boundary", Q))
         c0 = 0
         n = 0
         while n < (4 if not thorough else 10):
